@@ -25,7 +25,8 @@ def call(fn, a): return {"e": "call", "fn": fn, "a": a}
 def decl(n, x): return {"s": "decl", "n": n, "x": x}
 def set_(n, x): return {"s": "set", "n": n, "x": x}
 def expr(x): return {"s": "expr", "x": x}
-def ret(x): return {"s": "ret", "x": x}
+def ret(x, status=0): return {"s": "ret", "x": x, "status": status}
+def guard_(c, status, msg): return {"s": "guard", "c": c, "status": status, "msg": msg}
 def brk(): return {"s": "break"}
 def cont(): return {"s": "continue"}
 def if_(c, t, f=None): return {"s": "if", "c": c, "t": t, "f": f or [], "haselse": f is not None}
@@ -47,6 +48,8 @@ REPS = {   # two representatives per shape
 }
 
 
+def fcall(fn, *args): return {"e": "fcall", "fn": fn, "as": list(args)}
+def func(name, params, body): return {"name": name, "params": list(params), "body": body}
 def calln(fn, *args): return {"e": "calln", "fn": fn, "as": list(args)}
 def match_(x, cases): return {"e": "match", "x": x, "cases": [{"p": p, "hasg": g is not None, "g": g if g is not None else lit(vnull()), "b": b} for p, g, b in cases]}
 def plit(v): return {"k": "lit", "v": v, "n": "", "ps": [], "rest": "", "fs": []}
@@ -58,8 +61,8 @@ def async_(b): return {"e": "async", "b": b}
 def await_(a): return {"e": "await", "a": a}
 
 
-def prog(pid, body, vars_=(), tags=()):
-    return {"id": pid, "body": body, "vars": [{"n": n, "v": v} for n, v in vars_], "tags": list(tags)}
+def prog(pid, body, vars_=(), tags=(), funcs=()):
+    return {"id": pid, "body": body, "vars": [{"n": n, "v": v} for n, v in vars_], "tags": list(tags), "funcs": list(funcs)}
 
 
 def operator_table():
@@ -455,7 +458,7 @@ class Gen:
 
 def all_programs(tier, seed):
     rnd = random.Random(seed)
-    progs = operator_table() + precedence_table() + control_table() + optimizer_table() + match_table() + string_table()
+    progs = operator_table() + precedence_table() + control_table() + optimizer_table() + match_table() + string_table() + status_table() + function_table()
     g = Gen(rnd)
     for _ in range(600 if tier == "quick" else 12000):
         progs.append(g.program())
@@ -728,3 +731,69 @@ def v2_programs(tier, seed):
     for i, p in enumerate(progs):
         p["id"] = i
     return progs
+
+
+# ---- guards and status returns -------------------------------------------------------------------------------
+def status_table():
+    out = []
+    I = lambda n: lit(vint(n))
+    S = lambda x: lit(vstr(x))
+    T, F = lit(vbool(True)), lit(vbool(False))
+    lt = lambda a, b: bin_("<", a, b)
+    P = lambda body, tags, vars_=(): out.append(prog("", body, vars_, ["status"] + tags))
+    for st in (200, 201, 202, 204, 301, 400, 401, 404, 409, 418, 422, 500, 503):
+        P([ret(obj([("a", I(1))]), st)], ["return", str(st)])
+        P([guard_(F, st, "no"), ret(I(1))], ["guard-fails", str(st)])
+        P([guard_(T, st, "no"), ret(I(1))], ["guard-holds", str(st)])
+    for qv in (vint(5), vint(-2), vint(0)):
+        q = [("qi", qv)]
+        P([guard_(bin_(">", var("qi"), I(0)), 400, "must be positive"), guard_(lt(var("qi"), I(3)), 422, "too big"), ret(var("qi"), 201)], ["guard-chain"], q)
+        P([if_(lt(var("qi"), I(0)), [ret(S("neg"), 404)], [guard_(bin_("!=", var("qi"), I(0)), 409, "zero")]), ret(S("ok"))], ["in-branches"], q)
+        P([decl("i", I(0)), while_(lt(var("i"), I(5)), [guard_(bin_("!=", var("i"), var("qi")), 418, "hit"), set_("i", bin_("+", var("i"), I(1)))]), ret(var("i"), 202)], ["guard-in-loop"], q)
+        P([for_(None, "v", arr([I(1), I(5), I(9)]), [if_(bin_("==", var("v"), var("qi")), [ret(var("v"), 201)])]), ret(S("none"), 404)], ["return-in-for"], q)
+        P([switch(var("qi"), [(I(5), [ret(S("five"), 201)]), (I(0), [guard_(F, 400, "zero")])], [ret(S("other"), 404)]), ret(S("after"))], ["in-switch"], q)
+        P([decl("f", async_([guard_(lt(var("qi"), I(0)), 400, "in block"), ret(I(7), 201)])), ret(await_(var("f")))], ["inside-async-block"], q)
+    P([guard_(I(1), 400, "x"), ret(I(1))], ["guard-non-boolean"])
+    P([guard_(bin_("==", bin_("/", I(1), I(0)), I(1)), 400, "x"), ret(I(1))], ["guard-condition-fails"])
+    P([guard_(F, 404, "a \"quoted\" message"), ret(I(1))], ["message-with-quotes"])
+    P([ret(bin_("/", I(1), I(0)), 201)], ["failing-value-with-status"])
+    return out
+
+
+# ---- functions the module declares ------------------------------------------------------------------------------
+def function_table():
+    out = []
+    I = lambda n: lit(vint(n))
+    S = lambda x: lit(vstr(x))
+    add = lambda a, b: bin_("+", a, b)
+    mul = lambda a, b: bin_("*", a, b)
+    lt = lambda a, b: bin_("<", a, b)
+    P = lambda funcs, body, tags, vars_=(): out.append(prog("", body, vars_, ["functions"] + tags, funcs))
+    addf = func("addf", ["a", "b"], [ret(add(var("a"), var("b")))])
+    fact = func("fact", ["n"], [if_(bin_("<=", var("n"), I(1)), [ret(I(1))]), ret(mul(var("n"), fcall("fact", bin_("-", var("n"), I(1)))))])
+    fib = func("fib", ["n"], [if_(lt(var("n"), I(2)), [ret(var("n"))]), ret(add(fcall("fib", bin_("-", var("n"), I(1))), fcall("fib", bin_("-", var("n"), I(2)))))])
+    P([addf], [ret(fcall("addf", I(1), I(2)))], ["call"])
+    P([addf], [ret(fcall("addf", S("a"), S("b")))], ["call", "strings"])
+    P([addf], [ret(fcall("addf", I(1), arr([I(2)])))], ["call", "body-fails"])
+    P([addf], [ret(fcall("addf", bin_("/", I(1), I(0)), I(2)))], ["call", "argument-fails"])
+    P([addf], [ret(fcall("addf", I(1)))], ["arity", "one-less"])
+    P([addf], [ret(fcall("addf", I(1), I(2), I(3)))], ["arity", "one-more"])
+    P([], [ret(fcall("nosuch", I(1)))], ["undefined-function"])
+    for n in (0, 1, 5, 8):
+        P([fact], [ret(fcall("fact", I(n)))], ["recursion", "fact", str(n)])
+        P([fib], [ret(fcall("fib", I(n)))], ["recursion", "fib", str(n)])
+    # scoping: a function sees neither the caller's variables nor leaves any behind
+    P([func("f", [], [ret(var("x"))])], [decl("x", I(5)), ret(fcall("f"))], ["scope", "caller-variable-not-visible"])
+    P([func("f", ["a"], [decl("x", add(var("a"), I(1))), ret(var("x"))])], [decl("x", I(5)), decl("r", fcall("f", I(1))), ret(arr([var("r"), var("x")]))], ["scope", "local-declaration-does-not-touch-caller"])
+    P([func("f", ["a"], [set_("x", add(var("a"), I(1))), ret(var("x"))])], [decl("x", I(5)), decl("r", fcall("f", I(1))), ret(arr([var("r"), var("x")]))], ["scope", "assignment-to-caller-variable-is-undefined"])
+    P([func("g", [], [ret(var("y"))]), func("f", [], [decl("y", I(7)), ret(fcall("g"))])], [ret(fcall("f"))], ["scope", "callee-does-not-see-callers-locals"])
+    P([func("f", ["a"], [decl("t", mul(var("a"), I(2))), ret(var("t"))])], [decl("r", fcall("f", I(4))), ret(var("t"))], ["scope", "function-local-not-visible-after"])
+    P([func("f", ["a"], [set_("a", add(var("a"), I(1))), ret(var("a"))])], [decl("a", I(10)), decl("r", fcall("f", var("a"))), ret(arr([var("r"), var("a")]))], ["scope", "parameter-is-a-copy"])
+    P([func("f", ["xs"], [ret(add(var("xs"), arr([I(9)])))])], [decl("xs", arr([I(1)])), decl("r", fcall("f", var("xs"))), ret(arr([var("r"), var("xs")]))], ["scope", "array-argument-not-aliased"])
+    P([func("f", ["n"], [decl("i", I(0)), decl("s", I(0)), while_(lt(var("i"), var("n")), [set_("s", add(var("s"), var("i"))), set_("i", add(var("i"), I(1)))]), ret(var("s"))])],
+      [decl("i", I(100)), decl("r", fcall("f", I(4))), ret(arr([var("r"), var("i")]))], ["scope", "loop-counter-in-function-and-caller"])
+    P([func("f", ["a"], [decl("t", var("a"))])], [ret(fcall("f", I(3)))], ["body-without-return"])
+    P([func("pick", ["v"], [ret(match_(var("v"), [(plit(vint(1)), None, S("one")), (pvar("n"), None, add(var("n"), I(1)))]))])], [ret(arr([fcall("pick", I(1)), fcall("pick", I(5))]))], ["match-in-function"])
+    P([addf, fact], [ret(fcall("addf", fcall("fact", I(3)), fcall("fact", I(4))))], ["nested-calls"])
+    P([addf], [decl("f", async_([ret(fcall("addf", I(1), I(2)))])), ret(await_(var("f")))], ["call-in-async-block"])
+    return out
